@@ -131,6 +131,7 @@ def run_stage(mutate=None, save=True, inject=None, prefixes=("C",)):
             check("C05.update_pre.stop_rule_not_yet_reached_before", z3.Implies(i_.e >= 1, TT(i_.e - 1) < end.e))
             G["updates"] += 1
             if inject == "update_raises" and bool(SB(sym.FreshBool("update_fault"))):
+                G["raised"] = True
                 raise Injected("update")
             if inject == "update_interrupt" and bool(SB(sym.FreshBool("update_interrupt"))):
                 G["interrupted"] = True
@@ -195,6 +196,10 @@ def run_stage(mutate=None, save=True, inject=None, prefixes=("C",)):
             i = spec.idx
             # an error propagates; the frames written before the fault are exactly the frames of the run so far (checked when written)
             check("C15.stage_exceptional.error_propagates_unchanged", True)
+            return
+        if G.get("raised"):
+            # the update raised (e.g. "failed to converge") on this path, yet the stage returned normally: the error was swallowed
+            check("C15.stage_exceptional.error_propagates_unchanged", False, note="the stage returned normally after the update raised")
             return
         i = spec.idx
         c.ax.extend(unfold(i))
